@@ -1380,6 +1380,9 @@ def compare_model(chk: Check, sub: str, lines, expect, meta, canon=canon_model):
     mism = 0
     for ln, want, got, mt in zip(lines, expect, res, meta):
         g = canon(got) if mt[0] == "match" else got
+        if g == "UNSUPPORTED":
+            chk.count("model:unsupported(builder value types)")
+            continue
         if g != want:
             mism += 1
             if mism <= 5:
